@@ -85,6 +85,28 @@ class Scenario:
             if t0.exception() is not None:
                 raise core.HarnessError(f"earlier context failed: {t0.exception()!r}")
             self.t.calls.clear()
+        if cfg.get("earlier") == "save-failed":
+            # the same gateway object went through an earlier context in which the background save failed with a write error
+            # (a transient one: the file system is healthy again now); that context ended with the error
+            self.vfs.fail["open-write"] = OSError(28, "No space left on device")
+
+            async def first_failing():
+                async with self.gw:
+                    await asyncio.sleep(0)
+                    await asyncio.sleep(0)
+
+            t0 = loop.create_task(first_failing())
+            self._drain()
+            self.vfs.fail.clear()
+            if not t0.done():
+                raise core.HarnessError("earlier context did not finish")
+            t0.exception() if not t0.cancelled() else None  # whatever it ended with is not this scenario's business
+            self._drain()
+            for t_ in [x for x in loop.tasks() if not x.done()]:
+                t_.cancel()
+            self._drain()
+            self.t.calls.clear()
+            self.vfs.files[PATH] = bytearray(_INITIAL)
         if cfg.get("bystander"):
             # a second gateway of the same process, with its own transport and file, is inside its context already
             self.bys = Gateway(AsyncScriptTransport(loop), Config(persistence_file=BYS_PATH))
@@ -532,6 +554,7 @@ def configs(ctx: core.Ctx) -> list:
     # the same gateway object is entered a second time; another gateway is inside its own context meanwhile
     out.append({"body": "return", "connect": "ok", "disconnect": "ok", "file": "present", "transport": "script", "earlier": "immediate"})
     out.append({"body": "raise", "connect": "ok", "disconnect": "ok", "file": "missing", "transport": "script", "earlier": "immediate"})
+    out.append({"body": "return", "connect": "ok", "disconnect": "ok", "file": "present", "transport": "script", "earlier": "save-failed", "max_clock": 1})
     out.append({"body": "return", "connect": "ok", "disconnect": "ok", "file": "present", "transport": "script", "bystander": True, "max_clock": 1})
     out.append({"body": "return", "connect": "fail", "disconnect": "ok", "file": "present", "transport": "script", "bystander": True, "max_clock": 1})
     return out
